@@ -410,6 +410,9 @@ def run(tier, seed):
     for ti, _, _ in rej[:3]:
         chk.violation('proxy subscription: declared/actual %r: %r' % (ptr[ti][0][1]['rule'], ptr[ti][0][1]['matched']),
                       dict(kind='code->spec', module='c12'))
+    # ---- proxy subscriptions end to end over the built-in bus (spec/Signals.tla)
+    from . import signals
+    signals.stage(chk, rng, thorough)
     # ---- canary
     st = dict(traces[0][0][1])
     st['matched'] = frozenset(set(st['matched']) ^ {3})
